@@ -188,6 +188,14 @@ def execute(case, choose, cancel_at=None):
         if not ok:
             viols.append(("tee/child-sequence", f"child {c} received {got}, source sequence is {expected} "
                                                 f"(close_after={case['close_after'][c]}, cancelled={cancelled})"))
+    if (lock is not None or not case["src_susp"]) and not driver.deadlock and all(t.done and t.exc is None for t in tasks) \
+            and all(k is not None for k in case["close_after"]):
+        # every consumer asked for a fixed number of items: nothing beyond the largest request is taken from the
+        # source (a child that finds the item it was waiting for in its buffer does not fetch another one)
+        asked = max(case["close_after"], default=0)
+        if st.pos > min(asked, length):
+            viols.append(("tee/source-advanced-beyond-any-request",
+                          f"consumers asked for {case['close_after']} items, the source was advanced {st.pos} times"))
     if lock is not None and lock.owner is not None and not driver.deadlock:
         viols.append(("tee/lock-held-at-end", f"lock still owned by {lock.owner}"))
     if lock2 is not None and lock2.owner is not None and not driver.deadlock:
